@@ -347,6 +347,18 @@ func cmdRun(args []string) int {
 		fresh = append(fresh, v)
 	}
 	sort.SliceStable(fresh, func(i, j int) bool { return fresh[i].RunIndex < fresh[j].RunIndex })
+	// cross-check: the workers count every unattributed violation they see;
+	// if they counted some and none arrived here, the driver lost them
+	var counted int64
+	for k, n := range total.Counters {
+		if strings.HasPrefix(k, "violation:") {
+			counted += n
+		}
+	}
+	if counted > 0 && len(fresh) == 0 {
+		fmt.Fprintf(os.Stderr, "INFRA: the workers counted %d unattributed violations but none was merged; no verdict\n", counted)
+		infra = true
+	}
 	reported := 0
 	for _, v := range fresh {
 		seenClass[v.Class]++
